@@ -114,9 +114,10 @@ impl Ctx {
             }
             "respunknown" => Ok(w::tag(40005, &w::tag(40000, &w::uint(atom[1].as_u64().unwrap_or(0))))),
             "date" => Ok(w::tag(1, &match atom[1].as_str().unwrap_or("") {
-                "int" => w::uint(1_700_000_000),
-                "frac" => w::f16_bits(0x3800),
-                _ => w::nint(-86400),
+                // (not the dates of the value pool: an atom of the pool must never coincide with a fixed atom)
+                "int" => w::uint(1_600_000_000),
+                "frac" => w::f16_bits(0x3e00),
+                _ => w::nint(-172800),
             })),
             "cborhex" => hex::decode(atom[1].as_str().unwrap()).map_err(|e| EvalError(e.to_string())),
             // opaque values produced by the library (salt, signature, sealed message,
